@@ -223,7 +223,7 @@ def gen_case(rng, cid, ntypes=None, adversarial=False, ninj=1, nfiles=1, force_a
     return c
 
 
-def transitive_case(rng, cid, shadow_std=False, nfiles=1, other_used=True):
+def transitive_case(rng, cid, shadow_std=False, nfiles=1, other_used=True, args_first=False):
     """A package whose injector must spell types of packages NO file of the user's package imports: they are reached only
     through the signatures of constructors in a library package (lib.NewLogger() *log.Logger, lib.NewStoreConfig()
     *storage/config.Config).  Two packages share the package name `config`, and a file of the user's package that sorts
@@ -255,6 +255,12 @@ def transitive_case(rng, cid, shadow_std=False, nfiles=1, other_used=True):
     body = ('var _ = kessoku.Inject[*App](\n\t"Init%s",\n\tkessoku.Async(kessoku.Provide(lib.NewStoreConfig)),\n\tkessoku.Async(kessoku.Provide(lib.NewLogger)),\n'
             '\tkessoku.Async(kessoku.Provide(lib.NewStore)),\n\tkessoku.Async(kessoku.Provide(lib.NewService)),\n'
             '\tkessoku.Async(kessoku.Provide(NewOptions)),\n\tkessoku.Provide(NewCache),\n\tkessoku.Provide(NewApp),\n)\n') % cid.capitalize()
+    if args_first:
+        # injectors whose dependencies nobody supplies: the transitively reached types become PARAMETERS, and these are the
+        # first type expressions of the file that mention their packages
+        body = ('var _ = kessoku.Inject[*lib.Store](\n\t"Init%sStoreArg",\n\tkessoku.Provide(lib.NewStore),\n)\n\n'
+                'var _ = kessoku.Inject[*lib.Service](\n\t"Init%sSvcArg",\n\tkessoku.Async(kessoku.Provide(lib.NewService)),\n)\n\n'
+                % (cid.capitalize(), cid.capitalize())) + body
     c.files['k0.go'] = 'package main\n\nimport (\n\t"github.com/mazrean/kessoku"\n\t"%s/lib"\n)\n\n%s' % (mod, body)
     c.invoke = ['k0.go']
     if nfiles > 1:
@@ -263,7 +269,7 @@ def transitive_case(rng, cid, shadow_std=False, nfiles=1, other_used=True):
                  '\tkessoku.Provide(func(l *lib.Store, sv0 *lib.Service) *Cache { return &Cache{} }),\n\tkessoku.Async(kessoku.Provide(lib.NewService)),\n)\n') % cid.capitalize()
         c.files['k1.go'] = 'package main\n\nimport (\n\t"github.com/mazrean/kessoku"\n\t"%s/lib"\n)\n\n%s' % (mod, body2)
         c.invoke = ['k0.go', 'k1.go']
-    c.meta.update({'kind': 'transitive-imports', 'shadow_std': shadow_std, 'other_used': other_used, 'ninj': 1, 'nfiles': nfiles, 'types': ['transitive']})
+    c.meta.update({'kind': 'transitive-imports', 'shadow_std': shadow_std, 'other_used': other_used, 'args_first': args_first, 'ninj': 1, 'nfiles': nfiles, 'types': ['transitive']})
     return c
 
 
@@ -294,6 +300,27 @@ def derived_name_case(rng, cid, perm=0, ch_async=False):
     return c
 
 
+def regress_cases():
+    """reproducers of repaired C04 defects (regress/C04/<name>/): kept in the corpus so that a return is reported"""
+    out = []
+    base = os.path.join(pl.VERIF, 'regress', 'C04')
+    for k, name in enumerate(sorted(os.listdir(base)) if os.path.isdir(base) else []):
+        cid = 'g%02d%s' % (k, re.sub(r'[^a-z0-9]', '', name.lower())[:12])
+        c = Case(cid)
+        for dp, dn, fn in os.walk(os.path.join(base, name)):
+            for f in fn:
+                if f.endswith('.go'):
+                    rel = os.path.relpath(os.path.join(dp, f), os.path.join(base, name))
+                    c.files[rel] = open(os.path.join(dp, f)).read().replace('scratch/CASE', 'scratch/' + cid)
+        top = [f for f in c.files if '/' not in f]
+        if not any(re.search(r'^func main\(\)', c.files[f], re.M) for f in top):
+            c.files['zz_main.go'] = 'package main\n\nfunc main() {}\n'
+        c.invoke = sorted(f for f in top if 'kessoku.Inject[' in c.files[f])
+        c.meta.update({'kind': 'regress', 'name': name, 'ninj': 1, 'nfiles': len(c.invoke), 'types': ['regress']})
+        out.append(c)
+    return out
+
+
 def corpus(tier, sd):
     rng = random.Random(sd * 2654435761 % (2 ** 31) + 4)
     quick = tier == 'quick'
@@ -316,8 +343,9 @@ def corpus(tier, sd):
         cases.append(gen_case(rng, 'm%03d' % n, adversarial=rng.random() < 0.5, ninj=rng.randint(1, 2), nfiles=rng.randint(1, 2)))
         n += 1
     for k_ in range(4 if quick else 8):
-        cases.append(transitive_case(rng, 'x%03d' % n, shadow_std=(k_ % 2 == 1), nfiles=1 + (k_ // 4) % 2, other_used=(k_ // 2) % 2 == 0))
+        cases.append(transitive_case(rng, 'x%03d' % n, shadow_std=(k_ % 2 == 1), nfiles=1 + (k_ // 4) % 2, other_used=(k_ // 2) % 2 == 0, args_first=(k_ % 4 >= 2)))
         n += 1
+    cases += regress_cases()
     for k_ in range(6 if quick else 40):
         cases.append(derived_name_case(rng, 'd%03d' % n, perm=rng.randrange(120), ch_async=(k_ % 2 == 1)))
         n += 1
@@ -553,7 +581,7 @@ def names_end_to_end(w, rep, tier, prop):
     for k in range(6 if tier == 'quick' else 40):
         cases.append(derived_name_case(rng, 'e%03d' % k, perm=rng.randrange(120), ch_async=(k % 2 == 1)))
     for k in range(2 if tier == 'quick' else 6):
-        cases.append(transitive_case(rng, 'y%03d' % k, shadow_std=True, nfiles=1 + k % 2, other_used=(k // 2) % 2 == 0))
+        cases.append(transitive_case(rng, 'y%03d' % k, shadow_std=True, nfiles=1 + k % 2, other_used=(k // 2) % 2 == 0, args_first=(k % 2 == 1)))
     root, gres, post = run_cases(w, cli, cases, 'c12')
     ok = [c for c in cases if gres[c.id][0] == 0]
     out = names_of_cases(w, rep, root, ok, prop)
